@@ -317,6 +317,13 @@ def resolveRegions (s : State) (owner : Path) (vis : Vis) (target : Option Nat)
     (pending : List (Option Nat × Region)) (vfns : Option (List SFunc)) :
     State × Res (List Region × Option Vft × Nat × List (Layout.Placed Region)) :=
   let firstBase := (pending.map (·.2)).find? (·.isBase)
+  -- nothing can be laid out before the first base is resolved
+  match (match firstBase with | some b => b.ty.size s.reg | none => .ok (some 0)) with
+  | .ok none => (s, .defer)
+  | .defer => (s, .defer)
+  | .err m => (s, .err m)
+  | .panic m => (s, .panic m)
+  | .ok (some _) =>
   match buildVftable s owner vis firstBase vfns with
   | (s1, .ok (vft, vregion)) =>
     let reg := s1.reg
